@@ -87,8 +87,11 @@ func validatePermTree(root *ptree.PermNode, isAccount bool) (bool, error) {
 
 		checkResult := false
 		if nameCheck == 0 {
-			// current node is AK, signature should be validated before
-			checkResult = true
+			// current node is AK, signature should be validated before.
+			// Only the last component of a signer uri has been validated (IdentifyAK), so an AK
+			// that only appears in the middle of a uri (account/AK/otherAK) has no verified
+			// signature and must not count. The root (i == 0) is not part of any uri suffix.
+			checkResult = pnode.Terminal || i == 0
 		} else if nameCheck == 1 {
 			// current node is Account, so validation using ACLValidator
 			if pnode.ACL == nil {
